@@ -1,5 +1,7 @@
 SPECIFICATION Spec
 CONSTANTS Clients = {"c1", "c2"}  MaxDg = 5  MaxAssoc = 4  PacketsCap = 2  ReadCap = 1  CloseCap = 2  ReadsBeforeReturn = 1  Mode = "fixed"
+  Shutdown = FALSE
+  CloseGivesUp = FALSE
 INVARIANTS NoCrash NoStaleDelete OwnClientOnly InOrder NoLateQueue
 VIEW View
 CHECK_DEADLOCK FALSE
